@@ -109,6 +109,16 @@ def _kinds(tree):
     return out
 
 
+def _nodes(tree):
+    out = [(tree[0], tree[1])]
+    for c in tree[2]:
+        out.extend(_nodes(c))
+    return out
+
+
+RESERVED = (0, 1)    # __debug__, __builtins__: resolve without being supplied -> must be rejected
+
+
 def _ref_eval(tree, env):
     """Reference evaluation of a BoolOp/Name tree per the property text: only the
     supplied variables exist.  Returns ('val', id) | ('nameerror', id) | None (outside fragment)."""
@@ -147,12 +157,13 @@ class EvalStream(Stream):
         env = {"a": True, "b": False, "c": True, "d": False}
         mk = lambda ev, r, **kw: dict({"evaluator": ev, "recipe": r, "env": env}, **kw)  # noqa
         return [
-            # finding: __debug__ is not a supplied variable, yet evaluates to True
+            # regression (fixed findings, 9296d0f): __debug__ / __builtins__ must be rejected, not resolved
             mk("completion", ["n", "__debug__"], kind="debug"),
             mk("completion", ["or", [["n", "b"], ["n", "__debug__"]]], kind="debug"),
-            # finding: __builtins__ resolves to the (empty) dict passed as globals['__builtins__']
             mk("completion", ["n", "__builtins__"], kind="builtins-name"),
             mk("completion", ["or", [["n", "__builtins__"], ["n", "c"]]], kind="builtins-name"),
+            mk("ranking", ["n", "__debug__"], kind="debug"),
+            mk("custom:4", ["t", "sub", [["n", "__builtins__"]]], kind="builtins-name"),
             mk("completion", ["and", [["n", "a"], ["t", "import", []]]]),
             mk("completion", ["and", [["n", "a"], ["n", "b"], ["t", "open", []]]]),
             mk("completion", ["or", [["n", "b"], ["t", "callf", [["n", "a"], ["n", "c"]]]]]),
@@ -379,8 +390,7 @@ class EvalStream(Stream):
         if r["tree"] is not None and len(_kinds(r["tree"])) > 400:
             return None
         o = r["o"]
-        impl = {"val": lambda: f"(Val (VObj {q.cnat(r['v'])}))", "true": lambda: "(Val VTrue)",
-                "emptydict": lambda: "(Val VBuiltins)",
+        impl = {"val": lambda: f"(Val (VObj {q.cnat(r['v'])}))", "true": lambda: "Unsupported", "emptydict": lambda: "Unsupported",
                 "nameerror": lambda: f"(NameErr {q.cnat(max(r['n'], 0))})",
                 "rejected": lambda: f"(Rejected {q.cstr(r['kind'])})", "syntax": lambda: "SyntaxErr",
                 "other": lambda: "Unsupported", "runtime": lambda: "Unsupported"}[o]()
@@ -413,7 +423,9 @@ class EvalStream(Stream):
         allowed = set(r["wl"])
         if c["evaluator"] == "completion":
             allowed = SAFE6 | {"BinOp"}       # fixed by the property, not read from the code
-        bad = [k for k in kinds if k not in allowed]
+        # a node is bad if its class is not whitelisted, or it is a Name that the interpreter would
+        # resolve without its being supplied (`__debug__`, `__builtins__`; fix 9296d0f)
+        bad = [k for k, ident in _nodes(tree) if k not in allowed or (k == "Name" and ident in RESERVED)]
         if o == "rejected":
             if r["log"]:
                 return f"part of {r['text']!r} was evaluated before it was rejected: {r['log'][:4]}"
@@ -426,7 +438,8 @@ class EvalStream(Stream):
             return None
         # accepted and evaluated
         if bad:
-            return f"{r['text']!r} was evaluated although it contains non-whitelisted {bad[0]}"
+            what = "non-whitelisted " + bad[0] if bad[0] not in allowed else "a name that is not a supplied variable (__debug__/__builtins__)"
+            return f"{r['text']!r} was evaluated although it contains {what}"
         dang = [k for k in kinds if k in DANGEROUS]
         if dang and c["evaluator"] in ("completion", "ranking"):
             return f"{r['text']!r} containing {dang[0]} was accepted by {c['evaluator']}"
@@ -449,12 +462,10 @@ class EvalStream(Stream):
         return json.dumps([c["evaluator"], r["text"], sorted(c["env"].items())])
 
     def classify(self, c, r, failure):
-        import re
-        m = re.search(r"expected \('nameerror', (\d+)\)", failure)
-        if c["evaluator"] == "completion" and m and int(m.group(1)) in (0, 1) and not r.get("effects"):
-            # the reference evaluation stopped at `__debug__` / `__builtins__` (not supplied => NameError
-            # expected) but the interpreter resolved the name
-            return f"eval:completion:{VOCAB[int(m.group(1))]}-resolves-without-being-supplied"
+        if "a name that is not a supplied variable" in failure and r.get("o") in ("true", "emptydict"):
+            # the findings fixed by 9296d0f
+            nm = "__debug__" if r["o"] == "true" else "__builtins__"
+            return f"eval:completion:{nm}-resolves-without-being-supplied"
         kind = "effects" if r.get("effects") else r.get("o", "exc")
         return f"eval:{c['evaluator'].split(':')[0]}:{kind}"
 
@@ -492,13 +503,13 @@ META = {
         "independent of the variables), evaluation is reached only when every node is whitelisted; with the "
         "CompletionEvaluator whitelist regenerated from /repo every accepted tree consists of Expression/BoolOp/And/Or/"
         "Name/Load only (BinOp can never pass because no operator is whitelisted), its value is one of the supplied "
-        "objects (or NameError), depends only on the variables it names, and the only thing done to them is truth-testing; "
+        "objects (or NameError; `__debug__`/`__builtins__` are rejected by the visitor under every whitelist), depends only on "
+        "the variables it names, and the only thing done to them is truth-testing; "
         "no Call/Lambda/comprehension/NamedExpr/Await/Yield is whitelisted by either of cylc's evaluators. Tied to util.py "
         "by in-Coq comparison on generated expressions with side-effect canaries."),
     "level_note": (
         "hand model; CPython's parser/compiler/eval trusted; evaluation semantics modelled only for trees inside the BoolOp/Name "
-        "fragment (trees with other whitelisted nodes: accept/reject only); `__debug__` evaluates to True without being supplied (known finding, "
-        "modelled faithfully and excluded by hypothesis)"),
+        "fragment (trees with other whitelisted nodes: accept/reject only)"),
     "technique": "Coq proof (induction over rose trees) + generated whitelist (GEN) + in-Coq differential correspondence + canary oracle",
     "design_ref": "5/C24",
 }
